@@ -17,6 +17,7 @@
 #include <atomic>
 #include <chrono>
 #include <future>
+#include <sched.h>
 #include <thread>
 
 using namespace rkcommon::tasking;
@@ -38,7 +39,7 @@ using pbt::Tracked;
 
 struct Case
 {
-  int api = 0;        // 0 schedule burst, 1 async<T>, 2 AsyncTask<T>
+  int api = 0;        // 0 schedule burst, 1 async<T>, 2 AsyncTask<T>, 3 nested scheduling then a lone task
   int rtype = 0;      // 0 int 1 double 2 string 3 vector<int> 4 Tracked
   int burst = 1;      // number of tasks (schedule / async)
   int taskUs = 0;     // task duration
@@ -103,6 +104,7 @@ struct RV<Tracked>
 };
 
 static int g_threads = 0;
+static bool g_skipInit = false;
 constexpr double LIVENESS_BUDGET_S = 60.0;
 
 // ---------------------------------------------------------------- schedule()
@@ -282,6 +284,43 @@ static void asynctask_case(const Case &c, pbt::Ctx &ctx)
   ctx.label("asynctask-action-" + std::to_string(action));
 }
 
+// ---------------------------------------------------------------- nested scheduling, then a lone task
+// Tasks that schedule further tasks from inside the tasking system (work lands in the workers' own queues and is
+// stolen across workers), then - after everything has finished and the workers have gone idle - one lone task
+// scheduled from the caller.  It must run like any other, whatever the workers did before.
+static void nested_then_lone(const Case &c, pbt::Ctx &ctx)
+{
+  const int roots = std::max(1, c.burst % 24), kids = 1 + c.value % 12;
+  auto ran = std::make_shared<std::atomic<int>>(0);
+  const int us = c.taskUs;
+  for (int r = 0; r < roots; ++r)
+    schedule([ran, kids, us]() {
+      for (int k = 0; k < kids; ++k)
+        schedule([ran, kids, us]() {
+          burn(us);
+          // grandchildren, so that stealing goes both ways
+          schedule([ran]() { ran->fetch_add(1); });
+          ran->fetch_add(1);
+        });
+      ran->fetch_add(1);
+    });
+  const int expect = roots * (1 + 2 * kids);
+  if (!waitUntil([&] { return ran->load() >= expect; }, LIVENESS_BUDGET_S))
+    PBT_FAIL("nested scheduling: only " << ran->load() << " of " << expect << " tasks were executed within " << LIVENESS_BUDGET_S << " s");
+  for (int round = 0; round < 3; ++round) {
+    // let the workers go idle, then one task from the caller
+    std::this_thread::sleep_for(std::chrono::microseconds(500 + 1500 * round + c.callerUs * 10));
+    auto lone = std::make_shared<std::atomic<int>>(0);
+    schedule([lone]() { lone->fetch_add(1); });
+    if (!waitUntil([&] { return lone->load() >= 1; }, LIVENESS_BUDGET_S))
+      PBT_FAIL("a lone task scheduled after " << expect << " nested tasks had finished was not executed within " << LIVENESS_BUDGET_S << " s (" << g_threads << " tasking threads)");
+    std::this_thread::sleep_for(std::chrono::microseconds(200));
+    PBT_ASSERT_MSG(lone->load() == 1, "the lone task ran " << lone->load() << " times");
+  }
+  PBT_ASSERT_MSG(ran->load() == expect, "nested tasks ran " << ran->load() << " times in total, expected " << expect);
+  ctx.label("nested-then-lone");
+}
+
 // ---------------------------------------------------------------- wake-up rounds
 // schedule() issued at generated delays after the previous task finished, i.e. around the moment the worker(s)
 // go to sleep.  Every task must run although the caller does nothing but poll.  A stall is a LOST WAKE-UP (not
@@ -358,12 +397,22 @@ static void run_step(const Case &c, pbt::Ctx &ctx);
 struct Hist
 {
   std::vector<Case> steps;
-  auto tie() { return std::tie(steps); }
+  int pinNoInit = 0;  // 1: the child is confined to one CPU and never calls initTaskingSystem
+  auto tie() { return std::tie(steps, pinNoInit); }
 };
 #ifdef C02_FORKED
 static void run_history(const Hist &h, pbt::Ctx &ctx)
 {
   pbt::forked(ctx, [&](pbt::Ctx &cc) {
+    if (h.pinNoInit) {
+      cpu_set_t set;
+      CPU_ZERO(&set);
+      CPU_SET(sched_getcpu() >= 0 ? sched_getcpu() : 0, &set);
+      if (sched_setaffinity(0, sizeof set, &set) == 0) {
+        g_skipInit = true;
+        cc.label("one-cpu-no-init");
+      }
+    }
     for (const Case &c : h.steps)
       run_step(c, cc);
     if (h.steps.size() >= 2)
@@ -380,10 +429,22 @@ static void run_case(const Case &c, pbt::Ctx &ctx)
 static void run_step(const Case &c, pbt::Ctx &ctx)
 {
   // every case configures the tasking system itself (a replayed case must not depend on earlier cases)
-  g_threads = c.threads > 0 ? c.threads : 2;
-  initTaskingSystem(g_threads);
+  if (g_skipInit) {
+    // configuration "the application never calls initTaskingSystem and the process is confined to one CPU":
+    // the tasking system initialises itself lazily from what the hardware offers (one thread)
+    g_threads = 1;
+  } else {
+    g_threads = c.threads > 0 ? c.threads : 2;
+    initTaskingSystem(g_threads);
+  }
   pbt::treg().reset();
-  int api = ((c.api % 3) + 3) % 3, rt = ((c.rtype % 5) + 5) % 5;
+  int api = ((c.api % 4) + 4) % 4, rt = ((c.rtype % 5) + 5) % 5;
+  if (api == 3) {
+    nested_then_lone(c, ctx);
+    bool threadedN = THREADED && g_threads >= 2;
+    ctx.nt(threadedN && g_threads >= 3);
+    return;
+  }
   if (api == 0)
     schedule_burst(c, ctx);
   else if (api == 1) {
@@ -422,7 +483,7 @@ static rc::Gen<Case> genCase()
   maxBurst = std::min(maxBurst, (tier && std::string(tier) == "thorough") ? 20000 : 600);  // one detached thread per scheduled task
 #endif
   auto burst = gen::weightedOneOf<int>({{4, pbt::range<int>(1, 8)}, {3, pbt::range<int>(9, 200)}, {1, pbt::range<int>(200, maxBurst)}});
-  return gen::build<Case>(gen::set(&Case::api, gen::weightedElement<int>({{2, 0}, {2, 1}, {4, 2}})), gen::set(&Case::rtype, pbt::range<int>(0, 4)),
+  return gen::build<Case>(gen::set(&Case::api, gen::weightedElement<int>({{2, 0}, {2, 1}, {4, 2}, {1, 3}})), gen::set(&Case::rtype, pbt::range<int>(0, 4)),
       gen::set(&Case::burst, burst), gen::set(&Case::taskUs, gen::weightedOneOf<int>({{3, gen::just(0)}, {2, pbt::range<int>(1, 200)}})),
       gen::set(&Case::ctorUs, gen::weightedOneOf<int>({{2, gen::just(0)}, {2, pbt::range<int>(1, 2000)}, {1, pbt::range<int>(2000, 20000)}})),
       gen::set(&Case::callerUs, gen::weightedOneOf<int>({{3, gen::just(0)}, {2, pbt::range<int>(1, 200)}})), gen::set(&Case::action, pbt::range<int>(0, 11)),
@@ -439,6 +500,8 @@ static void register_properties()
         [](const std::vector<Case> &v) {
           Hist h;
           h.steps = v;
+          // derived from the steps so that the generator stays a pure function of rapidcheck's choices: ~1 in 8 histories
+          h.pinNoInit = (!v.empty() && (v[0].value % 8) == 0) ? 1 : 0;
           return h;
         });
     pbt::property<Hist>("task_histories", 250, hist, run_history);
